@@ -927,11 +927,206 @@ def work_ntag(job, acc):
 
 
 # ------------------------------------------------------------- driver ----
+# ------------------------------------------------------- part session ----
+# Histories of operations on ONE FeliCa Lite-S tag object (no power cycle, no
+# new activation): authenticate with the right / a wrong password, writes with
+# and without MAC, reads with MAC, for the three write-counter behaviours of
+# the tag model.
+SESSION_OPS = ('A+', 'A-', 'W', 'w', 'R')
+WCNT_MODES = ('mac', 'nvm', 'all')
+
+
+def jobs_session(tier):
+    depth = 4 if tier == 'thorough' else 3
+    for mode in WCNT_MODES:
+        for first in SESSION_OPS + ('P',):
+            yield dict(part='session', mode=mode, first=first, depth=depth)
+
+
+def session_run(mode, hist):
+    """-> list of violations (signature, detail) for one history."""
+    import nfc.tag
+    key = A
+    wrong = dkeys(F_KEYS)['A1']
+    fresh = hist[0] == 'P'
+    model = f_model('FelicaLiteS', bytes(16) if fresh else key)
+    model.wcnt_mode = mode
+    clf, tag = f_activate(model)
+    seq = itertools.cycle(CHALLENGES)
+
+    def challenge(n):
+        if n != 16:
+            raise HarnessError('urandom(%d) unexpected' % n)
+        return next(seq)
+    shims.set_urandom(challenge)
+    clf.arm()
+    valid = False
+    out = []
+    trace = []
+    for k, op in enumerate(hist):
+        data = bytes([0x50 + k]) * 16
+        before5 = model.user_data(5)
+        if op == 'P':
+            o = call(tag.protect, key)
+            good = o[0] == 'ret' and o[1] is True
+            want = 'True'
+            valid = False       # the library may or may not keep a session
+        elif op == 'A+':
+            o = call(tag.authenticate, key)
+            good = o[0] == 'ret' and o[1] is True
+            want = 'True'
+            valid = True
+        elif op == 'A-':
+            o = call(tag.authenticate, wrong)
+            good = o[0] == 'ret' and o[1] is False
+            want = 'False'
+            valid = False
+        elif op == 'W':
+            o = call(tag.write_with_mac, data, 5)
+            if valid:
+                good = o[0] == 'ret' and model.user_data(5) == data
+                want = 'written'
+            else:
+                # no session the harness knows of (the library may hold one:
+                # protect() authenticates on the way, an earlier session key
+                # may still fit): either written, or refused with the block
+                # kept - never a silent loss or a foreign exception
+                good = (o[0] == 'ret' and model.user_data(5) == data) or (
+                    model.user_data(5) == before5 and o[0] == 'exc' and (
+                        isinstance(o[1], RuntimeError) or is_tag_error(o[1])))
+                want = 'written, or refused (RuntimeError/TagCommandError) ' \
+                       'with the block kept'
+        elif op == 'w':
+            before6 = model.user_data(6)
+            o = call(tag.write_without_mac, data, 6)
+            good = o[0] == 'ret' and model.user_data(6) == data
+            want = 'written'
+            if hist[0] == 'P' and not good:
+                # protected: plain writes are refused by the tag
+                good = o[0] == 'exc' and is_tag_error(o[1]) and \
+                    model.user_data(6) == before6
+                want = 'written or TagCommandError (write protected)'
+        else:
+            o = call(tag.read_with_mac, 5)
+            if valid:
+                good = o[0] == 'ret' and o[1] is not None and \
+                    bytes(o[1]) == model.user_data(5)
+                want = 'block 5'
+            else:
+                good = (o[0] == 'ret' and (o[1] is None or bytes(
+                    o[1]) == model.user_data(5))) or (
+                    o[0] == 'exc' and (isinstance(o[1], RuntimeError)
+                                       or is_tag_error(o[1])))
+                want = 'block 5, None, RuntimeError or TagCommandError'
+        trace.append((op, show(o)))
+        if not good:
+            prev = hist[k - 1] if k else 'start'
+            sig = 'FelicaLiteS|session|%s after %s|%s' % (
+                op, prev, sig_exc(o[1]) if o[0] == 'exc'
+                else 'returned-%s' % show(o)[:24])
+            out.append((sig, dict(part='session', mode=mode,
+                                  history=list(hist), step=k, expected=want,
+                                  observed=show(o), trace=trace[:])))
+            break
+    return out
+
+
+def work_session(job, acc):
+    mode, first, depth = job['mode'], job['first'], job['depth']
+    for n in range(0, depth):
+        for rest in itertools.product(SESSION_OPS, repeat=n):
+            hist = (first,) + rest
+            k = ('session', mode, hist)
+            bad = session_run(mode, hist)
+            for sig, d in bad:
+                acc.fail(sig, d, k)
+            if not bad:
+                acc.ok(k, outcome=('session', mode, hist[-1],
+                                   hist.count('A+') > 1))
+    acc.run.sample(dict(part='session', mode=mode, first=first, depth=depth))
+
+
+# --------------------------------------------------------- part strpw ----
+# Text passwords with characters above U+007F: "protect(password) followed by
+# authenticate with the same password succeeds while any other password
+# fails".  No assumption is made about which octets a character stands for;
+# the other passwords differ from the protected one as text.
+STR_PASS = (
+    u'p\xe4ssw\xf6rd-\xfc\xdf\xe9\xe8\xe0\xe7!+tail',
+    u'\xe9\xe9\xe9\xe9\xe9\xe9\xe9\xe9\xe9\xe9\xe9\xe9\xe9\xe9\xe9\xe9',
+    u'NfcPw\xfc-0123456789',
+)
+
+
+def str_others(s):
+    yield 'ascii', u'0123456789abcdef-ascii'
+    yield 'utf8-lookalike', s.encode('utf-8').decode('latin-1')
+    try:
+        yield 'latin1-lookalike', s.encode('latin-1').decode('utf-8')
+    except UnicodeError:
+        pass
+    yield 'first-char', u'\xea' + s[1:]
+    yield 'stripped', s.encode('ascii', 'replace').decode('ascii')
+
+
+def jobs_strpw(tier):
+    for product in ('FelicaLite', 'FelicaLiteS', '210', '213', '216'):
+        for i in range(len(STR_PASS)):
+            yield dict(part='strpw', product=product, pw=i)
+
+
+def work_strpw(job, acc):
+    product, s = job['product'], STR_PASS[job['pw']]
+    felica = product.startswith('Felica')
+    fam = product if felica else 'NTAG21x'
+
+    def activate():
+        if felica:
+            clf, tag = f_activate(model)
+            set_challenge(CHALLENGES[0])
+        else:
+            clf, tag = n_activate(model)
+        clf.arm()
+        return tag
+    if felica:
+        model = f_model(product, bytes(16))
+    else:
+        model = nt.Ntag21x(product, ndef=b'\xd1\x01\x03T\x02en')
+    k0 = ('strpw', product, job['pw'])
+    o = call(activate().protect, s)
+    d = dict(part='strpw', product=product, pw=job['pw'], password=repr(s),
+             observed=show(o))
+    if o[0] == 'exc' or o[1] is not True:
+        acc.fail('%s|protect|str-non-ascii|%s' % (fam, sig_exc(
+            o[1]) if o[0] == 'exc' else 'returned-%r' % (o[1],)), d, k0)
+        return
+    cases = [('same', s, True)] + [(n, x, False) for n, x in str_others(s)
+                                   if x != s]
+    for name, x, want in cases:
+        o = call(activate().authenticate, x)
+        d = dict(part='strpw', product=product, pw=job['pw'],
+                 password=repr(s), then='authenticate', which=name,
+                 password2=repr(x), expected=want, observed=show(o))
+        if o[0] == 'exc':
+            acc.fail('%s|protect-then-authenticate|str-non-ascii|%s|%s' % (
+                fam, name, sig_exc(o[1])), d, k0 + (name,))
+        elif o[1] is not want:
+            acc.fail('%s|protect-then-authenticate|str-non-ascii|%s|returned'
+                     '-%r-expected-%r' % (fam, name, o[1], want), d,
+                     k0 + (name,))
+        else:
+            acc.ok(k0 + (name,), outcome=('strpw', fam, name, want))
+    acc.run.sample(dict(part='strpw', product=product, password=repr(s)))
+
+
 PARTS = dict(auth=(jobs_auth, work_auth), protect=(jobs_protect, work_protect),
+             session=(jobs_session, work_session),
+             strpw=(jobs_strpw, work_strpw),
              read=(jobs_read, work_read), conv=(jobs_conv, work_conv),
              ndef=(jobs_ndef, work_ndef), ntag=(jobs_ntag, work_ntag),
              pairs=(jobs_pairs, work_pairs))
-ORDER = ('read', 'pairs', 'ndef', 'conv', 'protect', 'auth', 'ntag')
+ORDER = ('read', 'pairs', 'ndef', 'conv', 'protect', 'session', 'auth',
+         'ntag', 'strpw')
 
 
 def work(chunk):
@@ -1095,6 +1290,11 @@ def replay(doc):
             job['pw'] = [n for n, o in N_PASS if o.hex() == d['password']][0]
             job['ptype'] = d['ptype']
         work_ntag(job, acc)
+    elif part == 'session':
+        for sig, dd in session_run(d['mode'], tuple(d['history'])):
+            acc.fail(sig, dd, 'replay')
+    elif part == 'strpw':
+        work_strpw(dict(part='strpw', product=d['product'], pw=d['pw']), acc)
     else:
         raise SystemExit('unknown part %r' % part)
     hit = run.failures.get(doc['signature'])
